@@ -33,9 +33,10 @@ Satisfiability of every hypothesis set is shown next to the theorem (`Proofs/Lin
 `real_sqrtLaws`, a concrete straight trench evaluated by the kernel through the computable copy `ratToy` of the toy scalar).
 
 NOT proved here: that the Bézier closest-point search returns the orthogonal foot (it is an input of `C06_cartesian_frame`); the
-spherical frame; the sector bookkeeping of the circular branch (`C06_arc_piece_full`); that the piece finally selected by the
-"closest so far" test is the one the planar construction would select when several pieces accept the point (the code takes the
-smallest `|distance|`, first wins ties — `segClosest`); the gap between real and double arithmetic.
+spherical frame; the sector bookkeeping of the circular branch (`C06_arc_piece_full`); the gap between real and double arithmetic.
+Which piece wins when several accept the point (smallest `|distance|`, first wins ties) is proved for straight pieces in
+`Properties/C06Walk.lean` (`C06_walk_selects_min`, `C06_walk_along_eq`), together with the characterisation of the wedge at a dip
+jump that no piece accepts (`C06_walk_joint_gap`: recorded known finding `kink-wedge`).
 -/
 import GwbVerif.Proofs.LineInstances
 namespace Gwb
